@@ -19,6 +19,16 @@ func TestReplay(t *testing.T) {
 	switch f.Test {
 	case "TestC14":
 		key, msg = replayC14(t, f.Script)
+	case "TestC01":
+		key, msg = replayScript(t, f.Script, monitorC01)
+	case "TestC04":
+		key, msg = replayScript(t, f.Script, monitorC04)
+	case "TestC08":
+		key, msg = replayScript(t, f.Script, monitorC08)
+	case "TestC11":
+		key, msg = replayScript(t, f.Script, monitorC11)
+	case "TestC03Timely", "TestC03Arbitrary":
+		key, msg = replayScript(t, f.Script, replayC03)
 	default:
 		t.Fatalf("no replay handler for %s", f.Test)
 	}
